@@ -25,7 +25,16 @@ def scn_throttle(ctx):
     wake = threading.Event()
     orig_submit = me.submit
 
+    nref = [0]
+
     def submit_hook(fn, *a, **kw):
+        # with params refuse=k: the delegate may refuse (raise from submit()) up to k hand-overs; a refused
+        # hand-over ends that future with the error and must not keep a slot of the limit
+        if p.get("refuse") and nref[0] < p["refuse"] and ctx.choice(2, "refuse%d" % len(me.submitted)):
+            nref[0] += 1
+            ev.add("delegate_refuse", fn=fn)
+            ctx.reach("delegate-refused")
+            raise RuntimeError("delegate refuses")
         f = orig_submit(fn, *a, **kw)
         f.add_done_callback(lambda _f: ev.add("delegate_done", tag=_f.tag))
         wake.set()
@@ -173,6 +182,7 @@ def scn_throttle(ctx):
     in_force = None
     qlen_block = 0  # queue length as the blocking submit sees it
     below_since = {}
+    refused = set()
     for e in ev.items:
         k = e["k"]
         if k == "count_ret":
@@ -218,8 +228,17 @@ def scn_throttle(ctx):
             eligible_since = None
         elif k == "delegate_done":
             inflight -= 1
+        elif k == "delegate_refuse":
+            for sp in subs:
+                if e["fn"] is sp["fn"]:
+                    refused.add(sp["i"])
+                    if sp["i"] in queue:
+                        queue.remove(sp["i"])
+                    else:
+                        handed.append(sp["i"])  # refused before submit() returned: never enters the queue
+            eligible_since = None
         # recompute eligibility after every event
-        if k in ("submit_ret", "delegate_done", "delegate_submit", "user_cancel"):
+        if k in ("submit_ret", "delegate_done", "delegate_submit", "user_cancel", "delegate_refuse"):
             if queue:
                 if ckind == "none":
                     free = True
@@ -242,6 +261,9 @@ def scn_throttle(ctx):
             ctx.check("future-done", f.done(), "submission %d not done" % sp["i"])
             if f.done():
                 o_ = outcome(f)
+                if sp["i"] in refused:
+                    ctx.check("refused-outcome", o_[0] == "error" and "delegate refuses" in str(o_[1]), "submission %d: %r" % (sp["i"], o_))
+                    continue
                 ok_ = o_ == ("value", sp["i"] * 10) or (p.get("fails") and o_[0] == "error" and isinstance(o_[1], RuntimeError) and ("callable %d fails" % sp["i"]) in str(o_[1]))
                 ctx.check("own-outcome", ok_, "submission %d: %r" % (sp["i"], o_))
     else:
@@ -311,6 +333,8 @@ def plan(tier, seed):
         items.append(dict(scenario=T, params=dict(nsub=2, submitters=1, count="dynamic", block=False, dyn_calls=3), bounds=dict(P=0)))
         items.append(dict(scenario=T, params=dict(nsub=3, submitters=1, count="dynamic", block=False, dyn_calls=4, dyn_menu=[1, 0], dur="verylong"), bounds=dict(P=0)))
         items.append(dict(scenario=T, params=dict(nsub=3, submitters=1, count="static", block=False, cancel=True, cmax=2), bounds=dict(P=0)))
+        items.append(dict(scenario=T, params=dict(nsub=3, submitters=1, count="static", block=False, cmax=2, refuse=1), bounds=dict(P=0)))
+        items.append(dict(scenario=T, params=dict(nsub=2, submitters=1, count="static", block=True, cmax=1, refuse=1), bounds=dict(P=0)))
         items.append(dict(scenario=T, params=dict(nsub=4, submitters=1, count="static", block=False, cancel=True, cancel_any=True, cmax=1, dur="long"), bounds=dict(P=0)))
     else:
         items.append(dict(scenario=T, params=dict(nsub=3, submitters=1, count="static", block=False), bounds=dict(P=1)))
@@ -322,4 +346,6 @@ def plan(tier, seed):
         items.append(dict(scenario=T, params=dict(nsub=2, submitters=1, count="dynamic", block=True, dyn_calls=5), bounds=dict(P=1)))
         items.append(dict(scenario=T, params=dict(nsub=3, submitters=1, count="static", block=False, cancel=True), bounds=dict(P=1)))
         items.append(dict(scenario=T, params=dict(nsub=2, submitters=1, count="none", block=True), bounds=dict(P=2)))
+        items.append(dict(scenario=T, params=dict(nsub=3, submitters=1, count="static", block=False, refuse=2), bounds=dict(P=1)))
+        items.append(dict(scenario=T, params=dict(nsub=3, submitters=2, count="static", block=True, refuse=1), bounds=dict(P=1)))
     return items
